@@ -173,3 +173,35 @@ Theorem keyed_first_value_never_changes : forall x bs,
 Proof.
   intros. apply keyed_reduce_snapshots; auto. intros; congruence.
 Qed.
+
+(* ------------------------------------------------------------------ the bound judgement is truthful *)
+Lemma acc_mono_sound : forall c, acc_mono_b c = true -> forall s a, nle s (acc_interp c s a).
+Proof.
+  intros [| | |f] H s a; simpl in H; try discriminate; simpl.
+  - unfold nle, c_plus, vn2. simpl. lia.
+  - apply c_count_mono.
+Qed.
+
+(* every promise [abound] derives for a fold / keyed fold / keyed reduce node holds on the emitted
+   semantics, for every input history and tick partition (map / map_with_key nodes only ERASE
+   promises; that the remaining MonotonicKeys promise survives them rests on the API's wrapper
+   `(k, v) -> (k, f ..)` keeping the key, which is not proved here) *)
+Theorem abound_sound : forall r bs,
+  match r with
+  | RMap _ _ => True
+  | _ =>
+    match abound r with
+    | BMonoSingle => Adj (single_le nle) (run_a (interp_a r) bs)
+    | BMonoValue => Adj (snap_evolves nle) (run_a (interp_a r) bs)
+    | BMonoKeys => Adj (snap_evolves (fun _ _ => True)) (run_a (interp_a r) bs)
+    | BUnb => True
+    end
+  end.
+Proof.
+  intros [init c x|f x|init c x|f x|f a] bs; simpl; auto.
+  - destruct (acc_mono_b c) eqn:M; [|exact I].
+    apply (fold_snapshots_monotone nle nle_refl nle_trans (acc_interp c) (acc_mono_sound c M)).
+  - destruct (acc_mono_b c) eqn:M.
+    + apply keyed_fold_snapshots; [apply nle_refl | apply nle_trans | apply acc_mono_sound; exact M].
+    + apply keyed_fold_snapshots; auto.
+Qed.
